@@ -374,6 +374,16 @@ def asts(tier):
         for w1, w2 in ((1, 2), (0, 1), (3, 0), (4, 1)):
             yield dict(contexts=[dict(window=w1, region=0, streams={"v1": a}), dict(window=w2, region=0, streams={"v1": [0]}),
                                  dict(window=w1, region=0, streams={"v2": [1]})], null="null")
+    # large configurations: 4-6 contexts x 3-8 streams x up to 6 entries per stream
+    for nctx, nstreams, per in ((4, 3, 4), (6, 8, 6), (5, 2, 10)):
+        ctxs = []
+        for c in range(nctx):
+            streams = {}
+            for s_ in range(nstreams):
+                start = (c * 3 + s_ * 2) % len(MENU)
+                streams[f"v{s_ + 1}"] = sorted({(start + k * (1 + (c + s_) % 3)) % len(MENU) for k in range(min(per, len(MENU)))})
+            ctxs.append(dict(window=(c % 5), region=(c % 3), streams=streams))
+        yield dict(contexts=ctxs, null="null")
     # two contexts
     reps = [[0], [4], [1, 6], [2, 7], [3, 5], [4, 6]]
     for a in singles:
